@@ -11,6 +11,10 @@ import (
 	"math"
 	"sync"
 
+	"crypto/aes"
+	"crypto/sha256"
+
+	"github.com/gotd/ige"
 	"github.com/gotd/log"
 
 	"github.com/gotd/td/mtproto"
@@ -224,6 +228,13 @@ func run(c *hx.Ctx, t tc, kind string, emit bool) {
 	if (len(ct)-24)%16 != 0 || len(ct) < 24 {
 		c.Violate("body-not-multiple-of-16", fmt.Sprintf("encrypted body length %d is not a multiple of 16", len(ct)-24), sh, ix, t)
 	}
+	{
+		mlen := int32(len(modelPayload))
+		if t.Mode == 1 {
+			mlen = t.MLen
+		}
+		specCheck(c, "Cipher.Encrypt", t.Key, t.KeyID, t.Side, t.Salt, t.Session, t.MsgID, t.SeqNo, mlen, modelPayload, t.Rnd, ct, sh, ix, t)
+	}
 	if !wellFormed {
 		c.Count("not-well-formed(no round-trip claim)")
 		return
@@ -252,6 +263,57 @@ func run(c *hx.Ctx, t tc, kind string, emit bool) {
 	}
 	if len(ct)-24 != 32+len(modelPayload)+pad {
 		c.Violate("body-length", "encrypted body length != header + payload + padding", sh, ix, t)
+	}
+}
+
+// ---------- the specification, transcribed (independent of package crypto) ----------
+func substr(s []byte, off, n int) []byte { return s[off : off+n] }
+func cat(parts ...[]byte) []byte {
+	var r []byte
+	for _, p := range parts {
+		r = append(r, p...)
+	}
+	return r
+}
+func h256(b []byte) []byte { s := sha256.Sum256(b); return s[:] }
+
+// specSeal: auth_key_id + msg_key + AES-IGE(aes_key, aes_iv, plaintext) per MTProto 2.0, x = 0 client->server, 8 server->client.
+func specSeal(authKey, keyID, padded []byte, x int) []byte {
+	msgKey := substr(h256(cat(substr(authKey, 88+x, 32), padded)), 8, 16)
+	a := h256(cat(msgKey, substr(authKey, x, 36)))
+	b := h256(cat(substr(authKey, 40+x, 36), msgKey))
+	key := cat(substr(a, 0, 8), substr(b, 8, 16), substr(a, 24, 8))
+	iv := cat(substr(b, 0, 8), substr(a, 8, 16), substr(b, 24, 8))
+	blk, err := aes.NewCipher(key)
+	if err != nil {
+		panic(err)
+	}
+	out := make([]byte, len(padded))
+	ige.EncryptBlocks(blk, iv, out, padded)
+	return cat(keyID, msgKey, out)
+}
+
+// specCheck: the frame must be exactly the specification's sealing of header + length + body + the random
+// padding the implementation drew (rnd[0] selects the amount, the following bytes are the padding).
+func specCheck(c *hx.Ctx, what string, key, keyID []byte, sideIdx int, salt, session, msgID int64, seqNo, mlen int32, body, rnd, ct []byte, sh, ix int, replay interface{}) {
+	pad := len(ct) - 24 - 32 - len(body)
+	if pad < 0 || len(rnd) < 1+pad || (len(ct)-24)%16 != 0 {
+		return // reported by the other oracle clauses
+	}
+	hdr := make([]byte, 32)
+	binary.LittleEndian.PutUint64(hdr[0:], uint64(salt))
+	binary.LittleEndian.PutUint64(hdr[8:], uint64(session))
+	binary.LittleEndian.PutUint64(hdr[16:], uint64(msgID))
+	binary.LittleEndian.PutUint32(hdr[24:], uint32(seqNo))
+	binary.LittleEndian.PutUint32(hdr[28:], uint32(mlen))
+	padded := cat(hdr, body, rnd[1:1+pad])
+	want := specSeal(key, keyID, padded, 8*sideIdx)
+	if !bytes.Equal(want, ct) {
+		where := "encrypted data"
+		if !bytes.Equal(want[8:24], ct[8:24]) {
+			where = "msg_key"
+		}
+		c.Violate("differs-from-spec:"+where, fmt.Sprintf("%s: %s is not the one the MTProto 2.0 specification defines for this key, direction and plaintext (padded plaintext %d bytes)", what, where, len(padded)), sh, ix, replay)
 	}
 }
 
@@ -376,6 +438,7 @@ func runConn(c *hx.Ctx, t cc, kind string, emit bool) {
 	c.Nontrivial(fmt.Sprintf("conn/%s/%d/%d/%v", branch, len(t.Payload), t.Salt, len(t.Intruder) > 0))
 	c.Sample(map[string]interface{}{"conn": true, "branch": branch, "payload_len": len(t.Payload), "frame_len": len(ct), "decrypt_code": od.Code})
 	// ---- oracle ----
+	specCheck(c, "Conn ("+branch+" branch)", t.Key, key.ID[:], 0, t.Salt, t.Session, t.MsgID, t.SeqNo, int32(len(wire)), wire, rr.rec, ct, sh, ix, t)
 	if od.Code != 0 {
 		c.Violate("conn-roundtrip-rejected", fmt.Sprintf("message sent by a Conn (%s branch) rejected by the server side: %s", branch, od.ErrText), sh, ix, t)
 		return
@@ -404,7 +467,6 @@ func runConn(c *hx.Ctx, t cc, kind string, emit bool) {
 		}
 		c.Violate("conn-payload-differs", fmt.Sprintf("%s branch: server decrypted a payload different from the one sent%s; another sender active at scheduling points: %v", branch, who, len(t.Intruder) > 0), sh, ix, t)
 	}
-	_ = wire
 	pad := len(od.Body) - int(od.MLen)
 	if pad < 12 || pad > 1024 || (len(ct)-24)%16 != 0 {
 		c.Violate("padding-out-of-range", fmt.Sprintf("conn: padding %d / body %d", pad, len(ct)-24), sh, ix, t)
@@ -677,7 +739,14 @@ func main() {
 	for i := 0; i < c.N(300, 5000); i++ {
 		run(c, gen(c, c.Rng.Intn(3), 4*c.Rng.Intn(513)), "go-only", false)
 	}
-	c.Obs.Rule = "(a) Cipher.Encrypt with a recorded random stream + DecryptFromBuffer on the other side. Coq correspondence (exact ciphertext bytes and exact decryption result) on payloads of 0..256 bytes only (SHA-256/AES run in the Coq VM): all alignment residues, random small, explicit-length path, gzip path (gzip bytes supplied by Go), malformed lengths, failing random source. Payloads up to 64 KiB (thorough: 16 MiB) and 300 (5000) further random ones are checked by the Go oracle only (round trip, 16 | body, 12 <= padding <= 1024). (b) connection layer: a real mtproto.Conn (VerifNew + in-memory transport) sends content messages on all three branches of newEncryptedMessage (compression disabled / gzip above threshold / explicit length at or below it, thresholds 8..5000 and the default 1024, payloads around each threshold) with non-zero boundary salts/session ids; server-side oracle: exactly the session header and the payload arrive; small ones also go to Coq (exact frame bytes from conn_encrypt); every log line of the write path is used as a scheduling point at which a second connection sharing the buffer pool sends (3 attempts each), plus 8 concurrent senders. non-trivial = distinct (mode, side, payload length, first random byte) of a well-formed case, or distinct connection case"
+	// every payload length 0..1100 (step 4) with the minimal padding selector: every padded plaintext length
+	// 48..1152 (step 16) occurs, compared byte for byte with the specification's sealing
+	for n := 0; n <= 1100; n += 4 {
+		t := gen(c, 0, n)
+		t.Rnd = append([]byte{byte(c.Rng.Intn(16)) << 4}, c.Rng.Bytes(32)...)
+		run(c, t, "length-sweep(go-only)", false)
+	}
+	c.Obs.Rule = "(a) Cipher.Encrypt with a recorded random stream + DecryptFromBuffer on the other side. Coq correspondence (exact ciphertext bytes and exact decryption result) on payloads of 0..256 bytes only (SHA-256/AES run in the Coq VM): all alignment residues, random small, explicit-length path, gzip path (gzip bytes supplied by Go), malformed lengths, failing random source. Payloads up to 64 KiB (thorough: 16 MiB) and 300 (5000) further random ones are checked by the Go oracle only (round trip, 16 | body, 12 <= padding <= 1024). Every frame (all sizes, crypto.Cipher and Conn) is additionally compared byte for byte with an independent Go transcription of the MTProto 2.0 sealing (msg_key, aes_key/iv, AES-IGE) fed with the recorded random padding, and every padded plaintext length 48..1152 occurs in a sweep. (b) connection layer: a real mtproto.Conn (VerifNew + in-memory transport) sends content messages on all three branches of newEncryptedMessage (compression disabled / gzip above threshold / explicit length at or below it, thresholds 8..5000 and the default 1024, payloads around each threshold) with non-zero boundary salts/session ids; server-side oracle: exactly the session header and the payload arrive; small ones also go to Coq (exact frame bytes from conn_encrypt); every log line of the write path is used as a scheduling point at which a second connection sharing the buffer pool sends (3 attempts each), plus 8 concurrent senders. non-trivial = distinct (mode, side, payload length, first random byte) of a well-formed case, or distinct connection case"
 	_ = binary.LittleEndian
 	c.Finish()
 }
